@@ -379,9 +379,28 @@ def container_strategy(tier):
     ])
     capinit = st.sampled_from([(1, 0), (2, 1), (3, 3), (4, 0), (5, 2), (6, 3), (8, 4), (10, 5), (12, 6), (2.5, 0.5), (2.5, 2.5),
                                ("inf", 0), ("inf", 3), (10, 0), (10, 10), (7, 3.5)])
-    return capinit.flatmap(lambda ci: st.fixed_dictionaries({
+    small = capinit.flatmap(lambda ci: st.fixed_dictionaries({
         "cls": st.just("Container"), "cap": st.just(ci[0]), "init": st.just(ci[1]),
         "groups": st.lists(group, min_size=12, max_size=80 if big else 40)}))
+    # the same histories in units a billion times smaller (bytes of a terabyte store): amounts that differ by one unit in 1e9
+    # and more are different amounts
+    G = 10 ** 9
+    hamt = st.sampled_from([G, G + 1, G - 1, 2 * G, 2 * G + 1, 1, 3 * G, 5 * G])
+    hcmd = kgen.weighted([
+        (st.tuples(st.just("put"), hamt).map(list), 6),
+        (st.tuples(st.just("get"), hamt).map(list), 6),
+        (st.tuples(st.just("cancel"), st.sampled_from(["put", "get"]), st.integers(0, 3)).map(list), 3),
+    ])
+    hgroup = kgen.weighted([
+        (st.lists(hcmd, min_size=1, max_size=1), 4),
+        (st.lists(hcmd, min_size=2, max_size=3), 3),
+        (st.tuples(st.just("adv"), st.sampled_from([1, 0.5, 2])).map(list), 2),
+    ])
+    hcap = st.sampled_from([(3 * G, G), (5 * G, 0), (2 * G + 1, 2 * G + 1), (10 * G, 5 * G), (G, G - 1)])
+    huge = hcap.flatmap(lambda ci: st.fixed_dictionaries({
+        "cls": st.just("Container"), "cap": st.just(ci[0]), "init": st.just(ci[1]),
+        "groups": st.lists(hgroup, min_size=12, max_size=40)}))
+    return kgen.weighted([(small, 4), (huge, 1)])
 
 
 def store_strategy(cls):
